@@ -257,12 +257,10 @@ End ORD.
 
 Theorem order_of_perm : forall b G, dense G -> G <> [] -> Permutation (order_of b G) (map cid G).
 Proof. intros b G HD _. exact (order_perm G HD b). Qed.
-Print Assumptions order_of_perm.
 
 (* the hypothesis G <> [] of order_of_perm is not needed *)
 Theorem order_of_perm_all : forall b G, dense G -> Permutation (order_of b G) (map cid G).
 Proof. intros b G HD. exact (order_perm G HD b). Qed.
-Print Assumptions order_of_perm_all.
 
 Theorem order_conjuncts : forall b G, dense G -> G <> [] ->
   let order := order_of b G in
@@ -282,7 +280,6 @@ Proof.
   - apply zmem_in. apply (Permutation_in _ (Permutation_sym P)). apply (ids_full G HD).
     destruct G as [|c r]; [congruence|]. cbn [List.length]. lia.
 Qed.
-Print Assumptions order_conjuncts.
 
 (* how each element of the optimized order got there: chunk 0 first; then either the fall-through successor (tail_of) of the
    element just before it, or the smallest id not yet placed *)
@@ -296,7 +293,6 @@ Proof.
   destruct (opt_order_final G HD) as (acc & Ea & (_ & _ & _ & SP) & _).
   rewrite Ea in E. destruct (SP pre d post E) as [H|[H|[_ H]]]; [left; exact H|right; left; exact H|right; right; exact H].
 Qed.
-Print Assumptions opt_order_step.
 
 Theorem plain_order_last : forall G, G <> [] -> exists pre, order_of false G = pre ++ [Z.of_nat (List.length G) - 1]%Z.
 Proof.
@@ -304,7 +300,6 @@ Proof.
   - destruct G; [congruence|discriminate].
   - exists (range k 0%Z). rewrite range_snoc. f_equal. f_equal. lia.
 Qed.
-Print Assumptions plain_order_last.
 
 (* ---------- complements ---------- *)
 
@@ -322,7 +317,6 @@ Proof.
   assert (N : NoDup (pre ++ d :: post)) by (rewrite <- E; apply NoDup_rev; exact ND).
   apply NoDup_remove_2 in N. intros X. apply N, in_or_app. left. exact X.
 Qed.
-Print Assumptions opt_order_step_strong.
 
 (* the optimized order starts with chunk 0 *)
 Theorem opt_order_head : forall G, dense G -> G <> [] -> exists post, order_of true G = 0%Z :: post.
@@ -336,7 +330,6 @@ Proof.
     + destruct pre'; discriminate.
     + congruence.
 Qed.
-Print Assumptions opt_order_head.
 
 (* ---------- the density hypothesis is decidable, and holds on a concrete graph produced by the emitter ---------- *)
 Definition denseb (G : list chunk) : bool :=
